@@ -29,6 +29,7 @@ impl ReplayFile {
                 "seed": seed,
                 "run_index": f.run,
                 "repo_src_hash": repo_hash(),
+                "build": if crate::game::collide_build() { "collide" } else { "plain" },
                 "how_to_replay": "cd /verif && ./run replay <this file>",
             }),
         }
